@@ -375,6 +375,14 @@ pub fn run(tier: &str, seed: u64, outdir: &str, extra: &[String]) {
                 let (w, h) = pick_dims(&mut r);
                 let Some(vp8) = vp8_payload(&mut r, w, h, &mut cx.feat) else { continue };
                 cx.still("simple", &rw::simple_vp8(&vp8), None, true);
+                if vp8.len() >= 10 {
+                    // upscaling hints in the frame header (RFC 6386 9.1): valid, ignored by decoders
+                    let mut v2 = vp8.clone();
+                    v2[7] |= (1 + r.below(3) as u8) << 6;
+                    v2[9] |= (r.below(4) as u8) << 6;
+                    cx.still("simple_scale_bits", &rw::simple_vp8(&v2), None, true);
+                    cx.still("vp8x_scale_bits", &rw::extended_vp8(0, w, h, None, &v2, &[]), None, true);
+                }
                 cx.still("vp8x_no_alpha", &rw::extended_vp8(0, w, h, None, &vp8, &[]), None, true);
                 // finding F18: alpha flag set, no ALPH chunk -> libwebp decodes an opaque RGBA image
                 cx.still("vp8x_alpha_flag_without_alph", &rw::extended_vp8(rw::VP8X_ALPHA, w, h, None, &vp8, &[]), None, true);
@@ -392,7 +400,10 @@ pub fn run(tier: &str, seed: u64, outdir: &str, extra: &[String]) {
                 continue; // animations belong to C06
             }
             let small = f.len() < 4000;
-            if !cx.still("test_images", &f, None, small || tier == "thorough") {
+            // the extracted specification decodes a large lossless alpha plane very slowly (a 300x300 plane: > 15 min):
+            // stills with an ALPH chunk above 40000 pixels are compared with libwebp only
+            let big_alpha = f.windows(4).any(|w| w == b"ALPH") && rw::features(&f).map(|x| (x.0 as u64) * (x.1 as u64) > 40_000).unwrap_or(true);
+            if !cx.still("test_images", &f, None, small || (tier == "thorough" && !big_alpha)) {
                 cx.feat.inc(&format!("test_images.disagree.{}", name));
             }
         }
